@@ -40,8 +40,9 @@ def candidate_statements():
             body = node.body
             idx = [i for i, s in enumerate(body) if isinstance(s, ast.Assign) and any(isinstance(t, ast.Name) and t.id == 'rnew' for t in s.targets) and 'residual(xnew)' in ast.unparse(s)]
             if idx:
-                start = [i for i, s in enumerate(body[:idx[0]]) if isinstance(s, (ast.Assign, ast.AugAssign, ast.Expr, ast.If)) and 'xnew' in ast.unparse(s) and 'residual' not in ast.unparse(s)]
-                if start: out['cand'] = body[start[0]:idx[0]]
+                # every statement between the box-QP loop (the last loop / break test before the call) and residual(xnew); timing statements are dropped
+                last = max([i for i, s in enumerate(body[:idx[0]]) if isinstance(s, (ast.While, ast.For)) or (isinstance(s, ast.If) and any(isinstance(x, ast.Break) for x in ast.walk(s)))] + [-1])
+                out['cand'] = [s for s in body[last + 1:idx[0]] if 'time.time' not in ast.unparse(s)]
             self.generic_visit(node)
     V().visit(fn)
     return out
